@@ -188,6 +188,8 @@ class CollisionAnswers:
         self.ip = Interposer(world, tap)          # no rules: used for its open() helper only
         self.IkeSa = seams.M['ikesa'].IkeSa
         self.orig = self.IkeSa.process_message
+        self.streak = {}
+        self.apart = bool(world.scenario.get('knobs', {}).get('pushback_apart')) and world.scenario['meta'].get('batch') == 'fifo'
         me = self
 
         def process_message(sa, data):
@@ -282,6 +284,22 @@ class CollisionAnswers:
                          f'a request to rekey the CHILD_SA the receiver is deleting was answered {notes or "with a normal reply"} instead of '
                          f'TEMPORARY_FAILURE (RFC 7296 2.25.1)')
         else:
+            # liveness of the collision rule for IKE_SA rekeys (both ends answer TEMPORARY_FAILURE and push their retry back by a random
+            # time): judged on a symmetric loss-free network with the two random draws forced apart (knob pushback_apart), where a correct
+            # endpoint pair resolves the collision at the first retry
+            key = bytes(sa.my_spi)
+            if st == 'REK_IKE_SA_REQ_SENT' and only(self.TF):
+                n = self.streak[key] = self.streak.get(key, 0) + 1
+                self.orc._r('answers.ike_rekey_collision_round', 1)
+                if n >= 2:
+                    self.orc._r('answers.ike_rekey_collision_repeated')
+                if n >= 5 and self.apart:
+                    return V('ike_rekey_collision_never_resolved', {},
+                             f'IKE_SA {key.hex()}: {n} consecutive rounds in which both endpoints started an IKE_SA rekey at the same time and '
+                             f'refused each other with TEMPORARY_FAILURE, on a loss-free network with constant latency and the two random '
+                             f'push-backs 1.4 s apart: the retries are in lockstep (livelock until the IKE_SA lifetime runs out)')
+            else:
+                self.streak.pop(key, None)
             if st == 'DEL_IKE_SA_REQ_SENT' and not only(self.TF):
                 return V('collision_not_answered_temporary_failure', {'request': kind},
                          f'an IKE_SA rekey request received while closing the IKE_SA was answered {notes or "with a normal reply"} instead of '
@@ -307,6 +325,7 @@ def generate(seed, tier):
     if fifo:
         L = r.choice([0.003, 0.01, 0.05, 0.2, 0.6])
         sc['fate_policy'] = {'mode': 'random', 'lat_range': [L, L]}
+        sc['knobs'] = {'pushback_apart': r.random() < 0.6}
     T = sc['until']
     ra = next(iter(configs.read_conf(sc['nodes']['A']['conf']).values()))
     rb = next(iter(configs.read_conf(sc['nodes']['B']['conf']).values()))
